@@ -521,3 +521,15 @@ def check_C15(tier, seed):
 
 def check_C16(tier, seed):
     return run_queue_check("C16", tier, seed)
+
+
+def _replay_judge(prop, case, obs):
+    if case.startswith("QH"):
+        return [m for p, m in judge_schedule(case, obs) if p == prop]
+    if case.startswith("QS"):
+        return [] if obs.startswith("ok") else [obs[:300]]
+    return [m for p, m in judge(case, obs) if p == prop]
+
+
+def replay(prop, data):
+    return common.replay_case(prop, data, "queue", _replay_judge)
